@@ -1,8 +1,9 @@
 """C11 — the FastOps operator container's bookkeeping always agrees with its contents."""
 from checks import big_scale
 from checks import api_cov
-LEAN_TARGETS = ["QmcProps.C11", "drv_c11"]
-BINS = ["c11"]
+from checks import extra_c11hint
+LEAN_TARGETS = ["QmcProps.C11", "drv_c11", "QmcProps.C11Hint"]
+BINS = ["c11", "c11h"]
 
 THEOREMS = [
     "refine_step",
@@ -72,10 +73,12 @@ def main(ck):
     if ck.lake_build(LEAN_TARGETS):
         if THEOREMS:
             ck.audit("QmcProps.C11", ["Qmc.C11." + t for t in THEOREMS])
+        extra_c11hint.run(ck)   # hint fills, propagated substate, read-only iterators, heap-branch sub-sweeps: refinement theorems
     if ck.cargo_build(BINS):
         cases = ck.harness("c11", ["hist"])
         ck.correspond("container-histories", "drv_c11", cases)
+        extra_c11hint.correspond(ck)   # the same helpers on the real FastOps vs the model and vs naive scans
     api_cov.run(ck, "c11")   # otherwise unexercised public API, model-free oracles of this property
     big_scale.run(ck, "manyops.onebond")   # large-scale regime (>65536 bonds/ops/slots, release semantics): model-free oracles of the property statements
     big_scale.run(ck, "longstring.ring", tags=["C18"])   # large-scale regime (>65536 bonds/ops/slots, release semantics): model-free oracles of the property statements
-    return ck.finish(RULE)
+    return ck.finish(RULE + extra_c11hint.RULE)
